@@ -38,6 +38,7 @@ func init() {
 			{Name: "elseif-bypasses-compileStmt", File: f, Old: "\t\tif stmts, ok := e.(*ast.BlockStmt); ok {\n\t\t\tcompileStmts(ctx, stmts.List)\n\t\t} else {\n\t\t\tcompileStmt(ctx, e)\n\t\t}", New: "\t\tif stmts, ok := e.(*ast.BlockStmt); ok {\n\t\t\tcompileStmts(ctx, stmts.List)\n\t\t} else if ei, ok := e.(*ast.IfStmt); ok {\n\t\t\tcompileIfStmt(ctx, ei)\n\t\t} else {\n\t\t\tcompileStmt(ctx, e)\n\t\t}", Expect: "stmt-route/compileIfStmt→compileIfStmt"},
 			{Name: "funclit-no-restore", File: "cl/expr.go", Old: "\t\tloadFuncBody(ctx, fn, body, nil, v)\n\t\tcb.SetComments(comments, once)\n", New: "\t\tloadFuncBody(ctx, fn, body, nil, v)\n\t\t_, _ = comments, once\n", Expect: "nested-restore/compileFuncLit"},
 			{Name: "funcbody-no-restore", File: "cl/compile.go", Old: "\tcomments, once := ctx.cb.BackupComments()\n\tdefer func() {\n\t\tctx.cb.SetComments(comments, once)\n\t}()\n\tcb := fn.BodyStart(ctx.pkg, body)", New: "\tcb := fn.BodyStart(ctx.pkg, body)", Expect: "nested-restore/loadFuncBody"},
+			{Name: "directive-cached-by-line", File: f, Old: "\tpos := ctx.fset.Position(start)\n\tif ctx.relBaseDir != \"\" {\n\t\tpos.Filename = fileLineFile(ctx.relBaseDir, pos.Filename)\n\t}\n\tline := fmt.Sprintf(\"\\n//line %s:%d:1\", pos.Filename, pos.Line)", New: "\tpos := ctx.fset.Position(start)\n\tif lastLineComments != nil && lastLine == pos.Line {\n\t\tcb.SetComments(lastLineComments, false)\n\t\treturn\n\t}\n\tlastLine = pos.Line\n\tif ctx.relBaseDir != \"\" {\n\t\tpos.Filename = fileLineFile(ctx.relBaseDir, pos.Filename)\n\t}\n\tline := fmt.Sprintf(\"\\n//line %s:%d:1\", pos.Filename, pos.Line)", Old2: "func checkStmtDoc(", New2: "var (\n\tlastLine         int\n\tlastLineComments *goast.CommentGroup\n)\n\nfunc checkStmtDoc(", Expect: "line-fresh/commentStmtEx"},
 			{Name: "fileline-guard-inverted", File: f, Old: "\tif ctx.fileLine {\n\t\tcommentStmtEx(ctx.cb, ctx.pkgCtx, stmt)\n\t}", New: "\tif ctx.fileLine && ctx.relBaseDir != \"\" {\n\t\tcommentStmtEx(ctx.cb, ctx.pkgCtx, stmt)\n\t}", Expect: "stmt-guard/commentStmt"},
 		},
 	})
@@ -386,6 +387,63 @@ func runC09(c *core.Check) {
 			return true
 		})
 		c.Decide(ok && n > 0, "line-origin", "checkStmtDoc", checkStmtDoc.Pos(), "returns nil or the Doc of the declaration inside the statement", "checkStmtDoc returns something other than the Doc group of the statement's own declaration: the directive may name a line that is not in front of the statement")
+	}
+	// ---------- (2b) the directive is computed afresh for every statement: inside commentStmtEx every SetComments call
+	// passes nil (statement without position) or the group built from this call's own `line` — never a group kept
+	// from an earlier statement (a cache keyed by line number confuses statements of different files)
+	{
+		ok := true
+		n := 0
+		var lineVars = map[types.Object]bool{}
+		ast.Inspect(commentStmtEx.Body, func(m ast.Node) bool {
+			if as, isAs := m.(*ast.AssignStmt); isAs && len(as.Lhs) == 1 && len(as.Rhs) == 1 {
+				if call, isCall := as.Rhs[0].(*ast.CallExpr); isCall {
+					if fn, isFn := calleeObj(info, call).(*types.Func); isFn && fn.Name() == "Sprintf" {
+						lineVars[identObj(info, as.Lhs[0])] = true
+					}
+				}
+			}
+			return true
+		})
+		ast.Inspect(commentStmtEx.Body, func(m ast.Node) bool {
+			call, isCall := m.(*ast.CallExpr)
+			if !isCall || len(call.Args) != 2 {
+				return true
+			}
+			if fn, isFn := calleeObj(info, call).(*types.Func); !isFn || fn.Name() != "SetComments" {
+				return true
+			}
+			n++
+			a := ast.Unparen(call.Args[0])
+			if id, isId := a.(*ast.Ident); isId && id.Name == "nil" {
+				return true
+			}
+			o := identObj(info, a)
+			fresh := false
+			if o != nil {
+				for lv := range lineVars {
+					if lv != nil && holdsLine(info, commentStmtEx, o, lv) {
+						fresh = true
+					}
+				}
+				// and it has no other definition (field read, map lookup, parameter)
+				for _, d := range varDefs(info, commentStmtEx, o) {
+					if d == nil {
+						continue
+					}
+					if _, isLit := ast.Unparen(d).(*ast.UnaryExpr); !isLit {
+						if _, isCL := ast.Unparen(d).(*ast.CompositeLit); !isCL {
+							fresh = false
+						}
+					}
+				}
+			}
+			if !fresh {
+				ok = false
+			}
+			return true
+		})
+		c.Decide(ok && n >= 2, "line-fresh", "commentStmtEx", commentStmtEx.Pos(), "every SetComments in commentStmtEx passes nil or the group built from this call's own position", "commentStmtEx installs a comment group that was not built from this statement's own position in this call (a cached or shared group): a statement can carry the //line directive computed for another statement — of another file when only the line number is compared")
 	}
 	// ---------- (3) census of CodeBuilder.SetComments
 	nSet := 0
